@@ -54,7 +54,8 @@ class DiagX(SDEFunction):
         super().__init__(m=dimension, d=dimension)
 
     def __call__(self, t: float, x: np.array) -> np.array:
-        return np.diag(x)
+        # x is a column vector: np.diag of a 2d array would extract its diagonal instead of building the matrix
+        return np.diag(np.ravel(x))
 
 
 class LiborSDEFunction(SDEFunction):
